@@ -53,6 +53,10 @@ ASSUME = [
     "through CRYPTO_set_mem_functions) may grow after establishment by at most one maximum frame on the wire (65539) + 4 KiB "
     "(XCM's own) / + 32 KiB (with OpenSSL's); during a garbage handshake the peak may exceed that of a good handshake by at "
     "most the same amount",
+    "release after close (every case): after xcm_close of the connection that received the input (raw side closed too, "
+    "server socket kept) the ledger of allocations made inside XCM calls on that connection must be back to 0 bytes for the "
+    "library's own allocations and <= 2 KiB for OpenSSL's (one-time error-state strings); prefix=60000 configurations run "
+    "every stream behind one well-formed 60000-byte frame on the same connection (tls, utls over tls, tcp)",
     "bystander (every tls/btls case): a second healthy idle connection B of the same kind, same thread, established once per "
     "forked batch before any case (outside the heap measurement) and re-established after a violation; after every case on "
     "the hostile connection: one idle xcm_receive(B) must say EAGAIN, one valid message (btls: 7 bytes) from B's peer must be "
@@ -80,6 +84,12 @@ def _tiers(tier):
                 T.append(("tp=%s,role=%s,fam=rawinj,maxframes=1,big=1" % (tp, role), 6.5))
         T.append(("tp=tls,role=server,fam=ctfrag,maxframes=1", 6.5))
         T.append(("tp=btls,role=client,fam=ctfrag,maxframes=0", 6.5))
+        # every malformed input again BEHIND one large well-formed frame on the same connection (what the reassembly
+        # buffer has grown to by then is what a bad frame may orphan)
+        for role in ("server", "client"):
+            T.append(("tp=tls,role=%s,fam=frames,nfull=4,maxframes=2,big=0,cuts=0,prefix=60000" % role, 7.5))
+            T.append(("tp=utls,role=%s,fam=frames,nfull=4,maxframes=1,big=0,cuts=0,prefix=60000" % role, 7.5))
+            T.append(("tp=tcp,role=%s,fam=frames,nfull=4,maxframes=2,big=0,cuts=0,prefix=60000" % role, 1.5))
     else:
         T.append(("tp=tcp,role=server,fam=frames,nfull=12,maxframes=3,big=3,bigtrickle=1", 0.4))
         T.append(("tp=tcp,role=client,fam=frames,nfull=11,maxframes=2,big=2,bigtrickle=1", 0.4))
@@ -100,6 +110,10 @@ def _tiers(tier):
         T.append(("tp=tls,role=client,fam=ctfrag,maxframes=1", 6.5))
         T.append(("tp=btls,role=server,fam=ctfrag,maxframes=1", 6.5))
         T.append(("tp=btls,role=client,fam=ctfrag,maxframes=1", 6.5))
+        for role in ("server", "client"):
+            T.append(("tp=tls,role=%s,fam=frames,nfull=6,maxframes=2,big=1,prefix=60000" % role, 7.5))
+            T.append(("tp=utls,role=%s,fam=frames,nfull=4,maxframes=2,big=1,cuts=0,prefix=60000" % role, 7.5))
+            T.append(("tp=tcp,role=%s,fam=frames,nfull=10,maxframes=2,big=1,prefix=60000" % role, 0.6))
     return T
 
 
@@ -202,7 +216,7 @@ def _run(chk, tier, jobs, deadline, exe, canon):
     lock = threading.Lock()
     tot = dict(cases=0, calls=0, checked=0, msgs=0, bytes_fed=0, segments=0, crashes=0, skipped_chunks=0,
                out=dict(eproto=0, closed=0, eagain=0, other=0), max_growth_xcm=0, max_growth_all=0, max_peak_hs=0,
-               hs_peak_ref=0, identity_skipped=0, hs_xcm_ok=0, bystander=0)
+               hs_peak_ref=0, identity_skipped=0, hs_xcm_ok=0, bystander=0, residual=0, max_resid_xcm=0, max_resid_ssl=0)
     samples = []
     sigcount = {}
     best = {}
@@ -257,6 +271,9 @@ def _run(chk, tier, jobs, deadline, exe, canon):
                     tot["identity_skipped"] += ln["identity_skipped"]
                     tot["hs_xcm_ok"] += ln["hs_xcm_ok"]
                     tot["bystander"] += ln.get("bystander_checks", 0)
+                    tot["residual"] += ln.get("residual_checks", 0)
+                    tot["max_resid_xcm"] = max(tot["max_resid_xcm"], ln.get("max_resid_xcm", 0))
+                    tot["max_resid_ssl"] = max(tot["max_resid_ssl"], ln.get("max_resid_ssl", 0))
                     for k in ("eproto", "closed", "eagain", "other"):
                         tot["out"][k] += ln["out_" + k]
                     for k in ("max_growth_xcm", "max_growth_all", "max_peak_hs", "hs_peak_ref"):
@@ -305,7 +322,8 @@ def _run(chk, tier, jobs, deadline, exe, canon):
                 first_terminal_result=tot["out"], max_heap_growth_xcm_bytes=tot["max_growth_xcm"],
                 max_heap_growth_with_openssl_bytes=tot["max_growth_all"],
                 max_heap_peak_garbage_handshake_bytes=tot["max_peak_hs"], heap_peak_good_handshake_bytes=tot["hs_peak_ref"],
-                cases_with_bystander_check=tot["bystander"], identity_mutations_skipped=tot["identity_skipped"], mutated_handshakes_accepted_by_xcm=tot["hs_xcm_ok"],
+                cases_with_bystander_check=tot["bystander"], cases_with_release_check_after_close=tot["residual"],
+                max_bytes_left_after_close_xcm=tot["max_resid_xcm"], max_bytes_left_after_close_openssl=tot["max_resid_ssl"], identity_mutations_skipped=tot["identity_skipped"], mutated_handshakes_accepted_by_xcm=tot["hs_xcm_ok"],
                 configurations=len(per_cfg), configurations_dead_in_warm_up=len(warm_crashed),
                 chunks_skipped_by_deadline=tot["skipped_chunks"],
                 per_configuration=sorted(per_cfg.values(), key=lambda p: p["configuration"]),
